@@ -37,7 +37,7 @@ def determinism():
             plans.append(('hist', b, ['core', 'io', 'conv'],
                           ['--property', prop, '--profile', prof, '--seed', '7', '--tier', 'quick'], prof))
     for b in ('thr-rel', 'thr-dbg'):
-        plans.append(('threads', b, ['core', 'thr'], ['--seed', '7', '--tier', 'quick'], 'threads'))
+        plans.append(('threads', b, ['core', 'io', 'thr'], ['--seed', '7', '--tier', 'quick'], 'threads'))
     for world, b, groups, args, label in plans:
         exe, failed = build.build_world(world, b, groups, thorough=False, quiet=True)
         args = args + ['--disable', ','.join(sorted(failed))]
